@@ -216,13 +216,31 @@ impl HideOps for SIpa {
         }
         Ok(parts)
     }
-    fn proof_blinding(_keys: &Keys<Self>, p: &LP<Self>, _st: &St<Self>, _z: &FrJ, proof: &Pf<Self>) -> Result<(), String> {
+    fn proof_blinding(keys: &Keys<Self>, p: &LP<Self>, st: &St<Self>, _z: &FrJ, proof: &Pf<Self>) -> Result<(), String> {
         let hides = p.hiding_bound().is_some();
         if proof.hiding_comm.is_some() != hides || proof.rand.is_some() != hides {
             return Err(format!("hiding_comm/rand present = ({},{}) but hiding = {}", proof.hiding_comm.is_some(), proof.rand.is_some(), hides));
         }
         if hides && (proof.hiding_comm.unwrap().is_zero() || proof.rand.unwrap().is_zero()) {
             return Err("hiding opening with a trivial hiding commitment or randomness".into());
+        }
+        if hides {
+            // the published `rand` is the challenge-weighted commitment randomness PLUS a fresh mask drawn by the opener
+            // (times the hiding challenge): it may not equal the unmasked combination, which anyone can divide by the
+            // public opening challenge to strip the blinding off the commitment
+            let mut sponge = sponge_pre::<FrJ>(0);
+            let xi0: FrJ = challenge(&mut sponge);
+            let mut unmasked = xi0 * st.rand;
+            if p.degree_bound().is_some() {
+                let xi1: FrJ = challenge(&mut sponge);
+                unmasked += xi1 * st.shifted_rand.unwrap_or(FrJ::zero());
+            }
+            if proof.rand.unwrap() == unmasked {
+                return Err("proof.rand equals the unmasked combination of the commitment randomness (no fresh mask from the opener's RNG)".into());
+            }
+            // and the hiding commitment carries the mask: hiding_comm - rand_mask * s must not be ... (not checkable without
+            // the opener's hiding polynomial); what is checkable: it is not a multiple of s alone with the same mask
+            let _ = keys;
         }
         Ok(())
     }
